@@ -28,6 +28,8 @@ WEIGHTS = {"add": 24, "satisfiable": 8, "eval": 14, "batch_eval": 4, "min": 9, "
 A = lambda c, s=0: {"s": s, "op": "add", "cs": [c]}  # noqa: E731
 E = lambda e, n, s=0: {"s": s, "op": "eval", "e": e, "n": n, "extra": []}  # noqa: E731
 B = lambda s=0: {"s": s, "op": "branch"}  # noqa: E731
+# add_replacement(v, c) on the classes that have it (a plain add of v == c on the others); inval=False: invalidate_cache=False
+R = lambda v, c, s=0, inval=True: dict({"s": s, "op": "add", "cs": ["(%s) == %d" % (v, c)], "repl": [v, c]}, **({} if inval else {"inval": False}))  # noqa: E731
 RULES = {
     "add-on-child": [A("ULT(x, 5)"), E("x", 20), B(), A("x != 1", 1), E("x", 20, 1), E("x", 20, 0)],
     "add-on-parent": [A("ULT(x, 5)"), E("x", 20), B(), A("x != 1", 0), E("x", 20, 0), E("x", 20, 1)],
@@ -51,6 +53,16 @@ RULES = {
                                     {"s": 0, "op": "min", "e": "x", "signed": False, "extra": []}, E("x", 20, 1)],
     "empty-branched-parent-pinned": [B(), B(), A("y == 6", 0), A("SLT(y, 0)", 1), E("y", 2, 1), E("y", 20, 1), A("ULT(x, 3)", 2), A("x == 2", 2),
                                      {"s": 1, "op": "min", "e": "y", "signed": False, "extra": []}, E("x", 20, 2), E("y", 20, 0), E("y", 20, 2)],
+    # one side of a branch records a user-level replacement (ReplacementFrontend.add_replacement; with invalidate_cache=False it is
+    # written in place into whatever tables the solver has): the other sides - parent, child, grand-parent - must not notice
+    "user-replacement-on-child": [A("ULE(x, 11)"), B(), R("x", 3, 1, False), E("x + 1", 20, 1), E("x", 20, 0),
+                                  {"s": 0, "op": "max", "e": "x", "signed": False, "extra": []}, {"s": 0, "op": "solution", "e": "x", "v": 7, "extra": []}],
+    "user-replacement-on-parent": [A("ULE(x, 11)"), E("x", 2), B(), R("x", 3, 0, False), E("x - 1", 20, 0), E("x", 20, 1),
+                                   {"s": 1, "op": "min", "e": "x", "signed": False, "extra": []}, {"s": 1, "op": "satisfiable", "extra": ["x == 9"]}],
+    "user-replacement-nested": [A("ULE(x, 11)"), B(), A("UGE(x, 2)", 1), B(1), R("x", 7, 2, False), E("x", 20, 1), E("x", 20, 0),
+                                {"s": 0, "op": "downsize"}, E("x & 3", 20, 0), E("x", 20, 2)],
+    "user-replacement-fresh-variable": [A("ULE(x, 11)"), B(), R("y", 3, 1), E("y", 20, 1), E("y", 20, 0), E("x + ZeroExt(1, y)", 40, 0),
+                                        B(0), R("z", 2, 0, False), E("z", 20, 2), E("z", 20, 1), E("y ^ z", 20, 2)],
 }
 
 
@@ -72,6 +84,19 @@ def jobs_for(ctx, classes, mult=1, extra_gen=None):
         for i in range(ctx.pick(14, 100) * mult):
             jobs.append({"cls": cls, "cfg": {"track": False, "reuse": i % 3 == 0}, "len": ctx.pick(8, 30),
                          "gen": dict({"shape": "empty-branch", "weights": WEIGHTS, "max_solvers": 5, "first_eq": 0.5}, **extra_gen)})
+        # one side of a branch (child, parent, grand-child) learns more about a variable - constraints; on SolverReplacement also
+        # user-level replacements, mostly with invalidate_cache=False -, the OTHER sides rebuild what they remember (downsize,
+        # pickle, simplify, an unrelated add) and are asked everything about that variable; random tail
+        rp = {"repl": 0.6} if cls == "SolverReplacement" else {}
+        for i in range(ctx.pick(14, 100) * mult):
+            jobs.append({"cls": cls, "cfg": {"track": False, "reuse": i % 3 == 0}, "len": ctx.pick(6, 20),
+                         "gen": dict({"shape": "branch-rebuild", "prefix_args": rp, "weights": WEIGHTS, "max_solvers": 5}, **extra_gen)})
+        if cls == "SolverReplacement":
+            # random trees with user-level replacements in between (a variable nothing mentions yet: read as `v == c`; with
+            # invalidate_cache=False: any variable, that solver is no longer judged)
+            for i in range(ctx.pick(16, 120) * mult):
+                jobs.append({"cls": cls, "cfg": {"track": False, "reuse": i % 3 == 0}, "len": lens[i % len(lens)],
+                             "gen": dict({"weights": WEIGHTS, "max_solvers": 5, "replace": 0.25, "repl_noinval": 0.6}, **extra_gen)})
     return jobs
 
 
@@ -135,7 +160,10 @@ def run(ctx):
         "SolverComposite / SolverHybrid / SolverReplacement: oracle and lineage projection only (their frontends are modelled with C12/C13)",
     ]
     ctx.cov["rule"] = ("trees of up to 5 solvers grown by branch() with interleaved adds, queries, simplify and downsize on all of them, a part of them "
-                       "grown from a solver branched while still EMPTY whose first constraints are `variable == constant`; classes Solver, "
+                       "grown from a solver branched while still EMPTY whose first constraints are `variable == constant`, a part opening with: "
+                       "constraints on v, branch (nested), ONE side learns more about v (SolverReplacement: also add_replacement(u, c), mostly with "
+                       "invalidate_cache=False), the OTHER sides rebuild (downsize / pickle / simplify / unrelated add) and are asked everything "
+                       "about v; classes Solver, "
                        "SolverCacheless, SolverStrings (with model correspondence incl. the sharing graph of Z3 objects) and SolverComposite, SolverHybrid, "
                        "SolverReplacement (oracle); a wrong answer counts as an isolation failure iff the solver answers correctly when run alone along its "
                        "lineage; a further stream makes the calls of such trees from two or three threads, strictly one after the other (oracle only); "
